@@ -1210,6 +1210,10 @@ class CParser:
             return None
         if self._peek_type() in {"PPPRAGMA", "_PRAGMA"}:
             return [self._parse_pppragma_directive()]
+        if self._peek_type() == "_STATIC_ASSERT":
+            # C11 6.7.2.1: a struct-declaration can be a static_assert. As in
+            # a block, its ';' is taken as an empty declaration.
+            return self._parse_static_assert()
 
         spec = self._parse_specifier_qualifier_list()
         assert "typedef" not in spec.get("storage", [])
